@@ -260,6 +260,14 @@ class SimpleExpression(ApplyExpression[Result]):
         args_hash = hash_arguments(registry, self.args, self.kwargs)
         return hash_struct(["SimpleExpression", self.func_name, args_hash])
 
+    def is_valid(self) -> bool:
+        # Like TaskExpression: a cached expression is only as valid as the Values (e.g. Files)
+        # among its arguments.
+        return all(
+            not isinstance(value, Value) or value.is_valid()
+            for value in iter_nested_value((self.args, self.kwargs))
+        )
+
     def __getstate__(self) -> dict:
         state = super().__getstate__()
         registry = get_type_registry()
